@@ -12,7 +12,7 @@ use std::collections::BTreeMap;
 
 pub fn body_of(op: &ClientOp) -> Value {
     match op {
-        ClientOp::Initialize { id, diag } => {
+        ClientOp::Initialize { id, diag, enc } => {
             // the capability that matters in several shapes a real client could send: the server
             // must look at textDocument.publishDiagnostics itself, not at what surrounds it
             let caps = match (*diag, id.rem_euclid(3)) {
@@ -23,6 +23,13 @@ pub fn body_of(op: &ClientOp) -> Value {
                 (false, 1) => json!({"textDocument": {"hover": {"contentFormat": ["plaintext"]}, "synchronization": {"didSave": true}}}),
                 (false, _) => json!({"textDocument": {}, "workspace": {"applyEdit": true}, "window": {"workDoneProgress": false}}),
             };
+            let mut caps = caps;
+            match enc {
+                1 => caps["general"] = json!({"positionEncodings": ["utf-16"]}),
+                2 => caps["general"] = json!({"positionEncodings": ["utf-8", "utf-16"], "markdown": {"parser": "marked"}}),
+                3 => caps["general"] = json!({"positionEncodings": ["utf-16", "utf-8"]}),
+                _ => {}
+            }
             // the optional members a real client sends, in three variations
             match id.rem_euclid(4) {
                 0 => json!({"jsonrpc":"2.0","id":id,"method":"initialize",
@@ -126,7 +133,9 @@ pub fn frames_of(script: &[Step]) -> Vec<Vec<u8>> {
     let style = script.len() % 3;
     // every other script also sends the deprecated but still common `rangeLength` member (the
     // length of the replaced range in UTF-16 units, as VS Code does)
-    let with_range_length = (script.len() / 3) % 2 == 1;
+    let with_range_length = (script.len() / 3) % 2 == 1
+        // (its unit would depend on the server's answer, which is not known when the frames are made)
+        && !script.iter().any(|s| matches!(s.op, ClientOp::Initialize { enc: 2 | 3, .. }));
     let mut versions: BTreeMap<&str, i64> = BTreeMap::new();
     let mut replica = Replica::default();
     script
@@ -426,6 +435,59 @@ fn classify(v: &Value) -> Result<RxMsg, String> {
 // the client's document replica
 // ------------------------------------------------------------------------------------------
 
+/// The unit columns are counted in. UTF-16 unless client and server agreed on UTF-8 in the
+/// handshake (LSP 3.17 `general.positionEncodings` / `capabilities.positionEncoding`).
+#[derive(Clone, Copy, Debug, PartialEq, Eq)]
+pub enum Enc {
+    Utf16,
+    Utf8,
+}
+
+thread_local! {
+    static ENC: std::cell::Cell<Enc> = const { std::cell::Cell::new(Enc::Utf16) };
+}
+
+/// Runs `f` with the client speaking `enc` (a judge does this for the rest of a session once it
+/// has seen the server's `initialize` answer).
+pub fn with_enc<R>(enc: Enc, f: impl FnOnce() -> R) -> R {
+    struct Restore(Enc);
+    impl Drop for Restore {
+        fn drop(&mut self) {
+            ENC.with(|e| e.set(self.0));
+        }
+    }
+    let _r = Restore(ENC.with(|e| e.replace(enc)));
+    f()
+}
+
+pub fn current_enc() -> Enc {
+    ENC.with(|e| e.get())
+}
+
+fn width(c: char) -> u32 {
+    match ENC.with(|e| e.get()) {
+        Enc::Utf16 => c.len_utf16() as u32,
+        Enc::Utf8 => c.len_utf8() as u32,
+    }
+}
+
+/// What the handshake of this script agrees on, given the server's `initialize` result.
+pub fn negotiated(script: &[Step], initialize_result: Option<&Value>) -> Enc {
+    let offered = script.iter().find_map(|s| match &s.op {
+        ClientOp::Initialize { enc, .. } => Some(*enc),
+        _ => None,
+    });
+    let picked = initialize_result
+        .and_then(|r| r.get("capabilities"))
+        .and_then(|c| c.get("positionEncoding"))
+        .and_then(|e| e.as_str());
+    match (offered, picked) {
+        // only an encoding the client offered can be agreed on; everything else is UTF-16
+        (Some(2 | 3), Some("utf-8")) => Enc::Utf8,
+        _ => Enc::Utf16,
+    }
+}
+
 /// Byte offset of an LSP position in `text` under the LSP 3.17 rules.
 pub fn offset_at(text: &str, line: u32, character: u32) -> usize {
     let bytes = text.as_bytes();
@@ -464,7 +526,7 @@ pub fn offset_at(text: &str, line: u32, character: u32) -> usize {
         if units >= character {
             return i + off;
         }
-        let w = ch.len_utf16() as u32;
+        let w = width(ch);
         if units + w > character {
             // position inside a surrogate pair: the generators never produce it; round down
             return i + off;
@@ -502,7 +564,7 @@ pub fn position_at(text: &str, offset: usize) -> (u32, u32) {
                 prev_cr = true;
             }
             c => {
-                units += c.len_utf16() as u32;
+                units += width(c);
                 prev_cr = false;
             }
         }
